@@ -1,0 +1,34 @@
+//go:build verif
+
+// Contracts for package ast, read by the verification machinery in /verif.
+// This file contains no executable code; it is compiled only with -tags verif.
+package ast
+
+/*@
+// interface methods that only read the node (trusted: every implementation returns a stored field)
+func (Node).GetRange
+  pure
+  trusted
+
+func (Declaration).Name
+  pure
+  trusted
+
+// position order: "sorted by occurrence in the source file"
+spec posLess(a, b token.Position) bool := a.Line < b.Line || (a.Line == b.Line && a.Column < b.Column)
+
+// the comparator handed to sort.Slice in IterateImportedDecls
+func IterateImportedDecls$1 [C16]
+  requires 0 <= i && i < len(decls) && 0 <= j && j < len(decls)
+  ensures result == posLess(decls[i].GetRange().Start, decls[j].GetRange().Start)
+  replay ./src/ast replay_templates/ast_import_order_test.go TestReplayImportOrder :
+         aLine = decls[i].GetRange().Start.Line ; aCol = decls[i].GetRange().Start.Column ;
+         bLine = decls[j].GetRange().Start.Line ; bCol = decls[j].GetRange().Start.Column
+
+// a strict weak order that is total on distinct positions makes "collect a map into a slice,
+// then sort" independent of the collection order
+lemma L_pos_irreflexive [C16]: forall a token.Position :: !posLess(a, a)
+lemma L_pos_asymmetric [C16]: forall a, b token.Position :: !(posLess(a, b) && posLess(b, a))
+lemma L_pos_transitive [C16]: forall a, b, c token.Position :: posLess(a, b) && posLess(b, c) ==> posLess(a, c)
+lemma L_pos_total [C16]: forall a, b token.Position :: a != b ==> posLess(a, b) || posLess(b, a)
+@*/
